@@ -187,3 +187,109 @@ package interpreter
 //@   opt frame-keys F:bt.Input.PreviousTxScript
 //@ func interpreter.opcodeCheckMultiSig
 //@   opt frame-keys F:bt.Input.PreviousTxScript
+
+// ---- stack effects of the data-stack primitives and of arithmetic opcodes (C05, partial) ----
+//@ func interpreter.(*stack).PushByteArray
+//@   bytes array
+//@   ensures[C05.push] (and (= (len (. s stk)) (+ (old (len (. s stk))) 1)) (= (at (. s stk) (old (len (. s stk)))) so))
+// Assumption for the functional contracts below: debugger callbacks observe; they write no memory that existed before
+// the call (they are handed snapshots). Library implementations are checked against it.
+//@ ifaces ^interpreter\.Debugger\.
+//@   pure
+// the functions attached to the library's own debugger (package debug) are the user's: same assumption
+//@ sig threadstatefn "func(state *interpreter.State)"
+//@   pure
+//@ sig stackfn "func(state *interpreter.State, data []byte)"
+//@   pure
+//@ sig execerrfn "func(state *interpreter.State, err error)"
+//@   pure
+// the four hook wrappers of the stack take a snapshot (thread.State: fresh copies) and call the debugger: assumed to write
+// nothing that existed before (the snapshot's freshness is the unbuilt part of C19; callbacks: assumption above)
+//@ funcs ^interpreter\.\(\*stack\)\.(beforeStackPush|afterStackPush|beforeStackPop|afterStackPop)$
+//@   assigns
+//@   trusted "debugger hooks write no memory that existed before the call"
+//@ func interpreter.(*stack).PushByteArray
+//@   opt forall-patterns 1
+//@   ensures[C05.push_rest] (forall ((k Int)) (=> (and (<= 0 k) (< k (old (len (. s stk))))) (= (at (. s stk) k) (old (at (. s stk) k)))))
+//@ func interpreter.(*stack).nipN
+//@   bytes array
+//@   opt forall-patterns 1
+//@   ensures[C05.nip_err] (= (= err nil) (and (<= 0 idx) (< idx (old (len (. s stk))))))
+//@   ensures[C05.nip_top] (=> (and (= err nil) (= idx 0)) (and (= (len (. s stk)) (- (old (len (. s stk))) 1)) (= r0 (old (at (. s stk) (- (len (. s stk)) 1))))))
+//@   ensures[C05.nip_top_rest] (=> (and (= err nil) (= idx 0)) (forall ((k Int)) (=> (and (<= 0 k) (< k (len (. s stk)))) (= (at (. s stk) k) (old (at (. s stk) k))))))
+//@ func interpreter.(*stack).PopByteArray
+//@   opt forall-patterns 1
+//@   ensures[C05.pop_err] (= (= err nil) (>= (old (len (. s stk))) 1))
+//@   ensures[C05.pop] (=> (= err nil) (and (= (len (. s stk)) (- (old (len (. s stk))) 1)) (= r0 (old (at (. s stk) (- (len (. s stk)) 1))))))
+//@   ensures[C05.pop_rest] (=> (= err nil) (forall ((k Int)) (=> (and (<= 0 k) (< k (len (. s stk)))) (= (at (. s stk) k) (old (at (. s stk) k))))))
+//@ func interpreter.makeScriptNumber
+//@   define (=> (= err nil) (= (bigval (. result val)) (num_of (bytes bb))))
+//@ func interpreter.(*scriptNumber).Bytes
+//@   define (= (bytes result) (enc_num (old (bigval (. n val)))))
+//@ func interpreter.(*stack).PopInt
+//@   opt forall-patterns 1
+//@   ensures[C05.popint] (=> (= err nil) (and (>= (old (len (. s stk))) 1) (= (len (. s stk)) (- (old (len (. s stk))) 1)) (= (bigval (. r0 val)) (num_of (old (bytes (at (. s stk) (- (len (. s stk)) 1))))))))
+//@   ensures[C05.popint_rest] (=> (= err nil) (forall ((k Int)) (=> (and (<= 0 k) (< k (len (. s stk)))) (= (at (. s stk) k) (old (at (. s stk) k))))))
+//@ func interpreter.(*stack).PushInt
+//@   opt forall-patterns 1
+//@   ensures[C05.pushint] (and (= (len (. s stk)) (+ (old (len (. s stk))) 1)) (= (bytes (at (. s stk) (old (len (. s stk))))) (enc_num (old (bigval (. n val))))))
+//@   ensures[C05.pushint_rest] (forall ((k Int)) (=> (and (<= 0 k) (< k (old (len (. s stk))))) (= (at (. s stk) k) (old (at (. s stk) k)))))
+
+// arithmetic and comparison opcodes: stack effect over the abstract numbers (num_of / enc_num)
+//@ func interpreter.opcode1Add
+//@   opt forall-patterns 1
+//@   ensures[C05.opcode1Add] (=> (= err nil) (spec.stack_result t 1 (+ (old (spec.top_num t 0)) 1)))
+//@ func interpreter.opcode1Sub
+//@   opt forall-patterns 1
+//@   ensures[C05.opcode1Sub] (=> (= err nil) (spec.stack_result t 1 (- (old (spec.top_num t 0)) 1)))
+//@ func interpreter.opcodeNegate
+//@   opt forall-patterns 1
+//@   ensures[C05.opcodeNegate] (=> (= err nil) (spec.stack_result t 1 (- (old (spec.top_num t 0)))))
+//@ func interpreter.opcodeAbs
+//@   opt forall-patterns 1
+//@   ensures[C05.opcodeAbs] (=> (= err nil) (spec.stack_result t 1 (abs (old (spec.top_num t 0)))))
+//@ func interpreter.opcodeNot
+//@   opt forall-patterns 1
+//@   ensures[C05.opcodeNot] (=> (= err nil) (spec.stack_result t 1 (ite (= (old (spec.top_num t 0)) 0) 1 0)))
+//@ func interpreter.opcode0NotEqual
+//@   opt forall-patterns 1
+//@   ensures[C05.opcode0NotEqual] (=> (= err nil) (spec.stack_result t 1 (ite (distinct (old (spec.top_num t 0)) 0) 1 0)))
+//@ func interpreter.opcodeAdd
+//@   opt forall-patterns 1
+//@   ensures[C05.opcodeAdd] (=> (= err nil) (spec.stack_result t 2 (+ (old (spec.top_num t 1)) (old (spec.top_num t 0)))))
+//@ func interpreter.opcodeSub
+//@   opt forall-patterns 1
+//@   ensures[C05.opcodeSub] (=> (= err nil) (spec.stack_result t 2 (- (old (spec.top_num t 1)) (old (spec.top_num t 0)))))
+//@ func interpreter.opcodeBoolAnd
+//@   opt forall-patterns 1
+//@   ensures[C05.opcodeBoolAnd] (=> (= err nil) (spec.stack_result t 2 (ite (and (distinct (old (spec.top_num t 0)) 0) (distinct (old (spec.top_num t 1)) 0)) 1 0)))
+//@ func interpreter.opcodeBoolOr
+//@   opt forall-patterns 1
+//@   ensures[C05.opcodeBoolOr] (=> (= err nil) (spec.stack_result t 2 (ite (or (distinct (old (spec.top_num t 0)) 0) (distinct (old (spec.top_num t 1)) 0)) 1 0)))
+//@ func interpreter.opcodeNumEqual
+//@   opt forall-patterns 1
+//@   ensures[C05.opcodeNumEqual] (=> (= err nil) (spec.stack_result t 2 (ite (= (old (spec.top_num t 1)) (old (spec.top_num t 0))) 1 0)))
+//@ func interpreter.opcodeNumNotEqual
+//@   opt forall-patterns 1
+//@   ensures[C05.opcodeNumNotEqual] (=> (= err nil) (spec.stack_result t 2 (ite (distinct (old (spec.top_num t 1)) (old (spec.top_num t 0))) 1 0)))
+//@ func interpreter.opcodeLessThan
+//@   opt forall-patterns 1
+//@   ensures[C05.opcodeLessThan] (=> (= err nil) (spec.stack_result t 2 (ite (< (old (spec.top_num t 1)) (old (spec.top_num t 0))) 1 0)))
+//@ func interpreter.opcodeGreaterThan
+//@   opt forall-patterns 1
+//@   ensures[C05.opcodeGreaterThan] (=> (= err nil) (spec.stack_result t 2 (ite (> (old (spec.top_num t 1)) (old (spec.top_num t 0))) 1 0)))
+//@ func interpreter.opcodeLessThanOrEqual
+//@   opt forall-patterns 1
+//@   ensures[C05.opcodeLessThanOrEqual] (=> (= err nil) (spec.stack_result t 2 (ite (<= (old (spec.top_num t 1)) (old (spec.top_num t 0))) 1 0)))
+//@ func interpreter.opcodeGreaterThanOrEqual
+//@   opt forall-patterns 1
+//@   ensures[C05.opcodeGreaterThanOrEqual] (=> (= err nil) (spec.stack_result t 2 (ite (>= (old (spec.top_num t 1)) (old (spec.top_num t 0))) 1 0)))
+//@ func interpreter.opcodeMin
+//@   opt forall-patterns 1
+//@   ensures[C05.opcodeMin] (=> (= err nil) (spec.stack_result t 2 (ite (< (old (spec.top_num t 1)) (old (spec.top_num t 0))) (old (spec.top_num t 1)) (old (spec.top_num t 0)))))
+//@ func interpreter.opcodeMax
+//@   opt forall-patterns 1
+//@   ensures[C05.opcodeMax] (=> (= err nil) (spec.stack_result t 2 (ite (> (old (spec.top_num t 1)) (old (spec.top_num t 0))) (old (spec.top_num t 1)) (old (spec.top_num t 0)))))
+//@ func interpreter.opcodeWithin
+//@   opt forall-patterns 1
+//@   ensures[C05.opcodeWithin] (=> (= err nil) (spec.stack_result t 3 (ite (and (<= (old (spec.top_num t 1)) (old (spec.top_num t 2))) (< (old (spec.top_num t 2)) (old (spec.top_num t 0)))) 1 0)))
